@@ -56,35 +56,42 @@ structure GJ (F : Type) where
   k : Nat
   pivots : List Nat
 
+/-- the pivot step shared by `solveAugmented` and `TryInv`: swap rows `k`/`pr`, scale the new row
+`k` so that its entry in column `pc` becomes `1`, subtract the multiple `row[pc]` of it from every
+other row (rows whose entry is already zero are left untouched, as in the Go code) -/
+def pivotStep (rows : Mat F) (k pr pc : Nat) : Mat F :=
+  let rows1 := swapRows rows k pr
+  let prow := rows1.getD k []
+  let prow' := scaleRow prow (prow.getD pc 0)⁻¹
+  rows1.mapIdx fun i row =>
+    if i = k then prow'
+    else
+      let f := row.getD pc 0
+      if f = 0 then row else elimRow row prow' f
+
 /-- one column step of Gauss–Jordan, exactly the loop body of `solveAugmented` -/
 def gjCol (s : GJ F) (pc : Nat) : GJ F :=
   if s.rows.length ≤ s.k then s else
   match findPivot s.rows s.k pc with
   | none => s
-  | some pr =>
-    let rows1 := swapRows s.rows s.k pr
-    let prow := rows1.getD s.k []
-    let prow' := scaleRow prow (prow.getD pc 0)⁻¹
-    let rows2 := rows1.mapIdx fun i row =>
-      if i = s.k then prow'
-      else
-        let f := row.getD pc 0
-        if f = 0 then row else elimRow row prow' f
-    { rows := rows2, k := s.k + 1, pivots := s.pivots ++ [pc] }
+  | some pr => { rows := pivotStep s.rows s.k pr pc, k := s.k + 1, pivots := s.pivots ++ [pc] }
 
 def gaussJordan (aug : Mat F) (numVars : Nat) : GJ F :=
   (List.range numVars).foldl gjCol { rows := aug, k := 0, pivots := [] }
+
+/-- the solution read off the reduced system: variable `pivots[i]` gets the right-hand side of
+row `i`, free variables are zero -/
+def extract (s : GJ F) (numVars : Nat) : List F :=
+  (List.range numVars).map fun j =>
+    match s.pivots.idxOf? j with
+    | some i => entry s.rows i numVars
+    | none => 0
 
 /-- `solveAugmented`: `none` = inconsistent.  The last column of `aug` is the right-hand side. -/
 def solveAugmented (aug : Mat F) (numVars : Nat) : Option (List F) :=
   let s := gaussJordan aug numVars
   if (s.rows.drop s.k).any (fun r => r.getD numVars 0 ≠ 0) then none
-  else
-    let pv := s.pivots.zipIdx   -- (pivot column, pivot row index)
-    some <| (List.range numVars).map fun j =>
-      match pv.find? (fun pr => pr.1 = j) with
-      | some (_, i) => entry s.rows i numVars
-      | none => 0
+  else some (extract s numVars)
 
 /-- `SolveRight`: solve `M x = b` (rows of `M` have `n` entries, `b` has one entry per row) -/
 def solveRight (m : Mat F) (n : Nat) (b : List F) : Option (List F) :=
@@ -130,15 +137,7 @@ def inverse (m : Mat F) : Option (Mat F) :=
     | some rows =>
       match findPivot rows k k with
       | none => none
-      | some pr =>
-        let rows1 := swapRows rows k pr
-        let prow := rows1.getD k []
-        let prow' := scaleRow prow (prow.getD k 0)⁻¹
-        some <| rows1.mapIdx fun i row =>
-          if i = k then prow'
-          else
-            let f := row.getD k 0
-            if f = 0 then row else elimRow row prow' f
+      | some pr => some (pivotStep rows k pr k)
   ((List.range n).foldl step (some aug)).map fun rows => rows.map (·.drop n)
 
 section Module
